@@ -252,10 +252,79 @@ class Verifier(Engine):
                 else:
                     self.oblige(s, self.eq_vals(s, have, want), f"init-{fld}", "", info={"case": fr.case_label},
                                 assume_after=False)
+        self.check_frame(fr, s)
         if not mentions_aes(c) and "aes_calls" in s.env and "aes_calls" in fr.init_state.env:
             t = s.env["aes_calls"].t == fr.init_state.env["aes_calls"].t
             if not z3.is_true(z3.simplify(t)):
                 self.oblige(s, t, "ghost-frame:aes_calls", "", info={"case": fr.case_label}, assume_after=False)
+
+    def check_frame(self, fr, s, tag="frame"):
+        """Frame condition: every heap cell that existed on entry and is not named by a modifies clause (nor the object
+        under construction) has the content it had on entry.  Checked at every normal and exceptional exit."""
+        import re
+        c = fr.contract
+        init = fr.init_state
+        cells, fields = set(), set()
+        for m in c.modifies:
+            try:
+                v = self.ev1(m, init)
+            except Exception:
+                v = None
+            if isinstance(v, VRef):
+                cells.add(v.ident)
+                continue
+            if isinstance(m, ast.Attribute):
+                try:
+                    ov = self.ev1(m.value, init)
+                except Exception:
+                    ov = None
+                if isinstance(ov, VRef):
+                    fields.add((ov.ident, m.attr))
+        for name, ty in c.params:
+            if isinstance(ty, str) and ty.startswith("newobj:") and isinstance(init.env.get(name), VRef):
+                cells.add(init.env[name].ident)
+        for ident, c0 in init.heap.items():
+            if ident in cells:
+                continue
+            c1 = s.heap.get(ident)
+            if c1 is c0:
+                continue
+            label = re.sub(r"!\d+$", "", ident)
+            eqs = []
+            if isinstance(c0, (VSeq, VList)) and isinstance(c1, (VSeq, VList)):
+                eqs.append(self.eq_vals(s, c0, c1))
+            elif isinstance(c0, dict) and isinstance(c1, dict) and c0.get("__kind__") == c1.get("__kind__"):
+                k = c0.get("__kind__")
+                if k == "file":
+                    if (ident, "pos") not in fields:
+                        eqs.append(self.eq_vals(s, c0["pos"], c1["pos"]))
+                    eqs.append(self.eq_vals(s, c0["content"], c1["content"]))
+                elif k == "dict":
+                    eqs += [c0["keys"] == c1["keys"], c0["map"] == c1["map"], c0["log"] == c1["log"]]
+                elif k == "obj":
+                    for f, v0 in c0.items():
+                        if f.startswith("__") or (ident, f) in fields:
+                            continue
+                        v1 = c1.get(f)
+                        if v1 is v0:
+                            continue
+                        if isinstance(v0, VRef) or isinstance(v1, VRef):
+                            eqs.append(z3.BoolVal(isinstance(v0, VRef) and isinstance(v1, VRef) and v0.ident == v1.ident))
+                        elif v1 is None:
+                            eqs.append(z3.BoolVal(False))
+                        else:
+                            eqs.append(self.eq_vals(s, v0, v1))
+                elif k == "emptylist":
+                    pass
+                else:
+                    continue
+            elif isinstance(c0, dict) and c0.get("__kind__") == "emptylist" and isinstance(c1, (VSeq, VList)):
+                eqs.append((IS.len(c1.t) if isinstance(c1, VSeq) else VS.len(c1.t)) == 0)
+            else:
+                eqs.append(z3.BoolVal(False))
+            eqs = [e for e in eqs if not z3.is_true(z3.simplify(e) if z3.is_expr(e) else z3.BoolVal(bool(e)))]
+            if eqs:
+                self.oblige(s, z3.And(*eqs), f"{tag}:{label}", "", info={"case": fr.case_label}, assume_after=False)
 
     def check_exc_exit(self, fr, s, exc, node, why):
         c = fr.contract
@@ -275,6 +344,7 @@ class Verifier(Engine):
         line = getattr(node, "lineno", 0) - fr.fdef.lineno if fr.fdef is not None else 0
         self.oblige(s, goal, f"escape-{exc}", f"{why}@L{line}".replace(" ", "-"),
                     info={"case": fr.case_label, "line": getattr(node, "lineno", 0), "exc": exc}, assume_after=False)
+        self.check_frame(fr, s, tag="frame-exc")
 
     def verify_lemma(self, c):
         fr = Frame(c, None, None)
